@@ -511,24 +511,31 @@ class Seq(Family):
                     [['ext', 0, 1], ['ng'], ['dopen'], ['mrg', 0, 1], ['rg', 0], ['ng'], ['dopen'], ['seti', 0, 2], ['dclose'], ['undo'], ['dclose'], ['rst']]):
             yield [ND, nc, ops]
         # exhaustive: one delay block around every non-empty sub-history of every core sequence
+        # (quick: blocks around a single op only for the sequences one shorter)
         Lb = 4 if tier == "quick" else 5
+        for ops in sequences(CORE, Lb - 1):
+            if _canonical(ops) and tier == "quick":
+                for (i, j) in placements(Lb - 1):
+                    yield [ND, nc, with_block(ops, i, j)]
         for ops in sequences(CORE, Lb):
             if _canonical(ops):
-                for (i, j) in placements(Lb):
+                for (i, j) in placements(Lb, 2 if tier == "quick" else 1):
                     yield [ND, nc, with_block(ops, i, j)]
         # exhaustive: two delay blocks (nested or in a row) around sub-histories of shorter sequences
+        # (quick: only sequences that create a group)
         for ops in sequences(CORE, Lb - 1):
-            if _canonical(ops):
+            if _canonical(ops) and (tier != "quick" or ['ng'] in ops):
                 for blocked in two_blocks(ops):
                     yield [ND, nc, blocked]
         # exhaustive: every pair of (extended or core) ops next to each other inside one block
-        for pre in BLOCK_PREFIXES:
+        for pre in (BLOCK_PREFIXES[1:] if tier == "quick" else BLOCK_PREFIXES):
             for x in INBLOCK:
                 for y in INBLOCK:
                     ops = [list(o) for o in pre] + [['dopen'], list(x), list(y), ['dclose']]
                     if _valid_refs(ops):
                         yield [ND, nc, ops]
-                        yield [ND, nc, ops[:-1] + [['rem', 1], ['dclose'], ['app', 1]]]
+                        if tier != "quick" or pre is BLOCK_PREFIXES[1]:
+                            yield [ND, nc, ops[:-1] + [['rem', 1], ['dclose'], ['app', 1]]]
         # exhaustive: one extended op between two core ops, a block around it and a neighbour / both
         for pre in sequences(CORE, 1):
             for x in EXT:
@@ -666,7 +673,10 @@ def _features(ops):
 for _cls in (Seq, SeqRandom):
     _cls.run_impl = lambda self, case: _run(case)
     _cls.shrink = lambda self, case: _shrink(case)
-    _cls.line = lambda self, case, pyout: __import__("harness.core", fromlist=["sx"]).sx(["seq", case, pyout])
+    # VERIF_C06_MODEL=seqold / sequ: compare with the model of the code before fix F3 / before fix F26
+    # (by hand, against an unfixed tree; see props.d/C06/design.md)
+    _cls.line = lambda self, case, pyout: __import__("harness.core", fromlist=["sx"]).sx(
+        [__import__("os").environ.get("VERIF_C06_MODEL", "seq"), case, pyout])
     _cls.nontrivial = lambda self, case, po: any(op[0] == 'ng' for op in case[2]) and any(op[0] in ('app', 'ext', 'ins', 'seti', 'mrg', 'ca') for op in case[2])
     _cls.signature = lambda self, case, po, res: {"construct": "+".join(sorted(_features(case[2]))) or "plain"}
 
@@ -674,12 +684,17 @@ for _cls in (Seq, SeqRandom):
 PROP = Property(
     id="C06",
     title="Every dataset in a collection carries exactly one subset per subset group",
-    theorems=["C06.inv_init", "C06.step_inv", "C06.reachable_inv", "C06.spec_of_inv", "C06.reachable_spec",
-              "C06.reachable_ordered", "C06.restore_roundtrip", "C06.old_removed_dataset_keeps_subsets", "C06.old_reappend_duplicates"],
+    theorems=["C06.inv_init", "C06.step_inv", "C06.reachable_inv", "C06.deliver_inv", "C06.close_restores_inv",
+              "C06.depth_of_history", "C06.quiescent_inv", "C06.spec_of_inv", "C06.reachable_spec",
+              "C06.reachable_ordered", "C06.restore_roundtrip", "C06.unguarded_group_in_block_duplicates",
+              "C06.immediate_step_inv", "C06.immediate_reachable_inv", "C06.immediate_agrees", "C06.immediate_inv_quiescent",
+              "C06.old_removed_dataset_keeps_subsets", "C06.old_reappend_duplicates"],
     families=[Seq(), SeqRandom()],
     trusted_base=["CPython list / dict-order semantics and WeakKeyDictionary iteration order (hub delivery order of the groups)",
+                  "the hub fragment (delay depth, queue, flush when the outermost block closes) is transcribed from hub.py and compared on every snapshot (depth, queued Add / Delete messages); that hub.py implements that semantics for arbitrary programs is C07's theorem",
                   "GlueSerializer / GlueUnSerializer are exercised, not modelled: `restore` models their effect on the collection bookkeeping only"],
     assumptions=["datasets enter the collection without subsets of their own (clients create subsets only through new_subset_group, as the module docstring of subset_group.py demands)",
-                 "after a session restore the restored objects stand for the saved ones; objects of the old session that were in the old collection are out of scope"],
-    rule="exhaustive: all sequences of exactly L core ops (append/remove x3 datasets, new group (<=2), remove group, clear; L=5 quick, 6 thorough) modulo dataset symmetry, every prefix checked through per-step snapshots; one extended op (extend/insert/merge/setitem/restore/setters/AddData-RemoveData commands/undo/redo) at every position of every core sequence of length 3 (quick) / 4 (thorough); all command/undo/redo words of length 4/5; all position-sensitive words of length 4/5 over {RemoveData x3, AddData, undo, redo, direct remove x2, insert in front, new group} after extend[0,1,2] + new group (undo must re-insert at the recorded, possibly stale, position); all pairs of extended ops after 1 (quick) / 2 (thorough) core ops; seeded random sequences up to length 60 with up to 5 groups and merged datasets. non-trivial = creates a group and adds a dataset",
+                 "after a session restore the restored objects stand for the saved ones; objects of the old session that were in the old collection are out of scope",
+                 "a session is not saved / restored while a hub.delay_callbacks() block is open (queued messages are not part of a session); hub.ignore_callbacks(DataCollectionAddMessage / DeleteMessage) blocks are out of scope (the client asks for the handlers not to run)"],
+    rule="exhaustive: all sequences of exactly L core ops (append/remove x3 datasets, new group (<=2), remove group, clear; L=5 quick, 6 thorough) modulo dataset symmetry, every prefix checked through per-step snapshots; one extended op (extend/insert/merge/setitem/restore/setters/AddData-RemoveData commands/undo/redo) at every position of every core sequence of length 3 (quick) / 4 (thorough); all command/undo/redo words of length 4/5; all position-sensitive words of length 4/5 over {RemoveData x3, AddData, undo, redo, direct remove x2, insert in front, new group} after extend[0,1,2] + new group (undo must re-insert at the recorded, possibly stale, position); all pairs of extended ops after 1 (quick) / 2 (thorough) core ops; seeded random sequences up to length 60 with up to 5 groups and merged datasets. Delay blocks (dopen / dclose = with hub.delay_callbacks()): one block around every sub-history of >= 2 ops of every core sequence of length 4 and around every non-empty sub-history of every core sequence of length 3 (quick) / every non-empty sub-history of every core sequence of length 5 (thorough); two blocks, nested or in a row, around sub-histories of every core sequence of length 3 that creates a group (quick) / of every core sequence of length 4 (thorough); every ordered pair of 32 extended / core ops next to each other inside one block after 2 (quick) / 3 prefixes, also followed by a remove inside and a re-append after the block (quick: for one of the prefixes); one extended op between two core ops with a block around it and a neighbour or both; two thirds of the random sequences mix in blocks nested up to 3. Snapshots (incl. hub depth and the queued Add / Delete messages) are compared after every op, inside blocks too; the Spec is evaluated at every snapshot with no block open. non-trivial = creates a group and adds a dataset",
 )
